@@ -53,12 +53,3 @@ package migrator
 //@   in migrator.(Migrator).AutoMigrate migrator.(Migrator).AutoMigrate$1 migrator.(Migrator).MigrateColumn
 //@   min-sites 0
 //@   assert nothing-is-dropped-or-renamed: false [C20]
-//@ immutable Constraint.Name
-//@   writers schema.(*Relationship).ParseConstraint
-//@   tags C20
-//@ immutable Index.Name
-//@   writers schema.(*Schema).ParseIndexes schema.parseFieldIndexes
-//@   tags C20
-//@ immutable CheckConstraint.Name
-//@   writers schema.(*Schema).ParseCheckConstraints
-//@   tags C20
